@@ -46,6 +46,8 @@ type Case struct {
 	NBufs  int    `json:"nbufs"`
 	Offset int    `json:"offset"`
 	Room   int    `json:"room"` // len(bufs[i]) - offset
+	// SizesExtra: len(sizes) = len(bufs) + SizesExtra (Device.Read allows len(sizes) >= len(bufs))
+	SizesExtra int `json:"sizes_extra,omitempty"`
 	// GSeed selects the stale bytes the output buffers hold before the call (0 = derive from Raw)
 	GSeed uint64 `json:"gseed,omitempty"`
 	// Conc names the concurrent pass the observation was made in ("" = a call on its own)
@@ -143,7 +145,7 @@ func runImpl(c *Case) {
 		staleFill(c, i, bufs[i])
 		stale[i] = append([]byte(nil), bufs[i]...)
 	}
-	sizes := make([]int, c.NBufs)
+	sizes := make([]int, c.NBufs+c.SizesExtra)
 	for i := range sizes {
 		sizes[i] = -1
 	}
@@ -179,6 +181,11 @@ func collect(c *Case, bufs, stale [][]byte, sizes []int) {
 	}
 	c.Segs = [][]byte{}
 	c.Touched = false
+	for i := len(bufs); i < len(sizes); i++ {
+		if sizes[i] != -1 { // a size reported for a buffer that does not exist
+			c.Touched = true
+		}
+	}
 	for i := range bufs {
 		used := 0
 		if sizes[i] >= 0 {
@@ -446,6 +453,17 @@ func roomFor(r *rand.Rand, rawLen int) int {
 	return n + 2 + r.Intn(199)
 }
 
+// pickSizesExtra: the sizes vector is as long as bufs, one longer, or much longer
+func pickSizesExtra(r *rand.Rand) int {
+	switch r.Intn(4) {
+	case 0:
+		return 1
+	case 1:
+		return 2 + r.Intn(200)
+	}
+	return 0
+}
+
 func nsegOf(s superSpec) int {
 	if s.gso == 0 {
 		return 0
@@ -506,7 +524,7 @@ func udpZeroIn(c *Case, cs int) bool {
 func genSuper(r *rand.Rand) Case {
 	s := randSuper(r)
 	for {
-		c := Case{Gen: "super", Raw: buildSuper(r, s), NBufs: pickBufs(r, nsegOf(s)), Offset: offsets[r.Intn(len(offsets))]}
+		c := Case{Gen: "super", Raw: buildSuper(r, s), NBufs: pickBufs(r, nsegOf(s)), Offset: offsets[r.Intn(len(offsets))], SizesExtra: pickSizesExtra(r)}
 		c.Room = roomFor(r, len(c.Raw))
 		c.Info = superInfo(s, c.Gen)
 		runImpl(&c)
@@ -548,7 +566,7 @@ func genNone(r *rand.Rand) Case {
 		paylen = 65535 - 60 - 60 - r.Intn(2)
 	}
 	for {
-		c := Case{Gen: "none-csum", NBufs: 1 + r.Intn(3), Offset: offsets[r.Intn(len(offsets))], Room: 65535}
+		c := Case{Gen: "none-csum", NBufs: 1 + r.Intn(3), Offset: offsets[r.Intn(len(offsets))], Room: 65535, SizesExtra: pickSizesExtra(r)}
 		if r.Intn(4) != 0 {
 			c.Room = 0 // set below, once the read is known
 		}
@@ -590,7 +608,7 @@ func genMalformed(r *rand.Rand) Case {
 		s.paylen = r.Intn(3000)
 	}
 	raw := buildSuper(r, s)
-	c := Case{Gen: "malformed", NBufs: pickBufs(r, nsegOf(s)), Offset: offsets[r.Intn(len(offsets))], Room: roomFor(r, len(raw))}
+	c := Case{Gen: "malformed", NBufs: pickBufs(r, nsegOf(s)), Offset: offsets[r.Intn(len(offsets))], Room: roomFor(r, len(raw)), SizesExtra: pickSizesExtra(r)}
 	plen := len(raw) - 10
 	cs, hl := s.cs(), s.hl()
 	m := r.Intn(14)
@@ -681,10 +699,16 @@ func scenarioUnitTests(r *rand.Rand) []Case {
 		c := Case{Gen: "unit-test", Raw: buildSuper(r, s), NBufs: 128, Offset: 10, Room: 65535, Info: superInfo(s, "unit-test")}
 		runImpl(&c)
 		res = append(res, c)
-		c2 := c // and its overflow variant: one buffer
+		c2 := c // and its overflow variant: one buffer, with sizes as long as bufs, one longer, much longer
 		c2.Gen, c2.NBufs = "unit-test-1buf", 1
 		runImpl(&c2)
 		res = append(res, c2)
+		for _, extra := range []int{1, 127} {
+			c3 := c2
+			c3.Gen, c3.SizesExtra = "unit-test-1buf-long-sizes", extra
+			runImpl(&c3)
+			res = append(res, c3)
+		}
 	}
 	// shorter than a virtio_net_hdr; a header only (gso_type TCPV4): in[0] is out of range
 	for _, raw := range [][]byte{{1, 1, 40, 0, 100}, {1, 1, 40, 0, 100, 0, 20, 0, 16, 0}} {
@@ -955,7 +979,8 @@ func concurrentPass(r *rand.Rand, gen string, withWriters bool, npk, maxRounds i
 						staleFill(&res.c, i, res.bufs[i])
 						res.stale[i] = append([]byte(nil), res.bufs[i]...)
 					}
-					res.sizes = make([]int, concBufs)
+					res.c.SizesExtra = []int{0, 1, 17}[t%3]
+					res.sizes = make([]int, concBufs+res.c.SizesExtra)
 					for i := range res.sizes {
 						res.sizes[i] = -1
 					}
@@ -1037,7 +1062,10 @@ func concurrentPass(r *rand.Rand, gen string, withWriters bool, npk, maxRounds i
 func readCases(r *rand.Rand, thorough bool) []Case {
 	var res []Case
 	add := func(s superSpec, gen string) {
-		c := Case{Gen: gen, Type: "rd", Raw: buildSuper(r, s), NBufs: nsegOf(s) + 1, Offset: offsets[r.Intn(len(offsets))]}
+		c := Case{Gen: gen, Type: "rd", Raw: buildSuper(r, s), NBufs: nsegOf(s) + 1, Offset: offsets[r.Intn(len(offsets))], SizesExtra: pickSizesExtra(r)}
+		if gen == "read-ordinary" {
+			c.NBufs = pickBufs(r, nsegOf(s)) // also fewer buffers than segments
+		}
 		if c.NBufs > 128 {
 			c.NBufs = 128
 		}
@@ -1091,7 +1119,7 @@ func readCases(r *rand.Rand, thorough bool) []Case {
 		if tcp {
 			thl = 20
 		}
-		c := Case{Gen: "read-none", Type: "rd", NBufs: 1 + r.Intn(3), Offset: offsets[r.Intn(len(offsets))]}
+		c := Case{Gen: "read-none", Type: "rd", NBufs: 1 + r.Intn(3), Offset: offsets[r.Intn(len(offsets))], SizesExtra: pickSizesExtra(r)}
 		c.Raw = buildPartial(r, v6, tcp, 20, thl, r.Intn(1500))
 		if r.Intn(4) == 0 {
 			c.Raw[0] = 0
